@@ -2,6 +2,24 @@ use std::path::Path;
 
 use crate::{Package, RotoError, RotoReport, Runtime, runtime::OptCtx};
 
+/// A module gets the name of its file or directory, so that name has to have
+/// the shape of an identifier: `a.b.roto` next to `a/b.roto` would otherwise
+/// define two modules both printed as `pkg.a.b`.
+fn is_identifier_shaped(s: &str) -> bool {
+    let mut chars = s.chars();
+    chars
+        .next()
+        .is_some_and(|c| c == '_' || unicode_ident::is_xid_start(c))
+        && chars.all(unicode_ident::is_xid_continue)
+}
+
+fn invalid_name(p: &Path) -> RotoReport {
+    read_error(
+        p,
+        std::io::Error::other("file name is not a valid Roto identifier"),
+    )
+}
+
 fn read_error(p: &Path, e: std::io::Error) -> RotoReport {
     RotoReport {
         errors: vec![RotoError::Read(p.to_string_lossy().into(), e)],
@@ -258,6 +276,10 @@ impl FileTree {
                 continue;
             }
 
+            if !is_identifier_shaped(ident) {
+                return Err(invalid_name(&path));
+            }
+
             let file = SourceFile::read(&path)?;
 
             let idx = self.files.len();
@@ -277,6 +299,14 @@ impl FileTree {
 
         if !file_path.exists() {
             return Ok(());
+        }
+
+        if !path
+            .file_name()
+            .and_then(|n| n.to_str())
+            .is_some_and(is_identifier_shaped)
+        {
+            return Err(invalid_name(path));
         }
 
         let file = SourceFile::read(&file_path)?;
